@@ -188,6 +188,20 @@ def small_factories(chk, prefix):
             else:
                 goal = v.t < 0          # Duration rejects a negative total
             chk.prove(f"{prefix}.duration.{m}", s.pc, goal, desc=f"Duration.{m}(n) for an integer n >= 0 is n * {factor} seconds; a negative amount is rejected (ValidationError)")
+    # the same factories on a FLOAT amount (their parameter is annotated float): the stored total is a whole number of seconds, truncated toward zero
+    for m, factor in (("from_seconds", 1), ("from_minutes", 60), ("from_hours", 3600), ("from_days", 86400)):
+        if dur.find_method(m) is None:
+            continue
+        st = St()
+        v = fresh("real", "amount")
+        st.assume(v.t >= 0)
+        for k, r, s in eng.run(dur.find_method(m), [ClassRef(dur), v], st=st):
+            chk.paths += 1
+            goal = z3.BoolVal(False)
+            if k == "val" and isinstance(r, Ref):
+                secs = s.get(r)["seconds"]
+                goal = z3.And(z3.BoolVal(is_sym(secs, "int") or (isinstance(secs, int) and not isinstance(secs, bool))), zint(secs) == z3.ToInt(v.t * factor)) if (is_sym(secs, "int") or isinstance(secs, int)) else z3.BoolVal(False)
+            chk.prove(f"{prefix}.duration.{m}.float_amount", s.pc, goal, desc=f"Duration.{m}(x) for a float x >= 0 stores int(x * {factor}): a whole number of seconds (the delay of a RETRY record and a wait are integers on the wire)")
     dec = P.cls("waits.WaitForConditionDecision")
     st = St()
     d0 = st.alloc(dur, {"seconds": fresh("int", "delay")})
